@@ -171,7 +171,9 @@ loop:
 			switch dm.state {
 			case dsDeployActive:
 				if result != nil {
-					break loop
+					// remove whatever the failed deploy left behind before exiting
+					runch = dm.startTeardown()
+					break
 				}
 				dm.log.Debug("deploy complete")
 				dm.state = dsDeployComplete
@@ -179,7 +181,9 @@ loop:
 				dm.startWithdrawal()
 			case dsDeployPending:
 				if result != nil {
-					break loop
+					// remove whatever the failed deploy left behind before exiting
+					runch = dm.startTeardown()
+					break
 				}
 				// start update
 				runch = dm.startDeploy()
